@@ -97,6 +97,21 @@ def run(ctx: Ctx, rep: Report) -> None:
         if len(owners) > 1:
             rep.check(names == ["PDU", "GetRequest"], "C06-R1", "puresnmp/pdu.py", f"registry key {key} is claimed by one class (PDU is overridden by GetRequest on purpose)", f"claimed by {names}: the last one wins", key=f"registry-collision|{key}")
     rep.ok("C06-R1", "puresnmp/pdu.py", "registry keys are unique apart from the intended PDU -> GetRequest override", f"{len(regs)} keys")
+    # a repository class that inherits TYPECLASS and TAG of an x690 base type re-registers that key and replaces the
+    # class x690.decode() instantiates for the universal type (X690Type.__init_subclass__ registers every subclass)
+    base_keys: Dict[Tuple[str, int, str], str] = {}
+    for c in ctx.u.classes.values():
+        if c.module.name == "x690.types" and ctx.r.is_subclass(c, x690) and c != x690:
+            for k in registry_key(ctx, c) or []:
+                base_keys[k] = c.name
+    takeovers = []
+    for c in ctx.u.classes.values():
+        if c.module.external or not ctx.r.is_subclass(c, x690):
+            continue
+        for k in registry_key(ctx, c) or []:
+            if k in base_keys:
+                takeovers.append(f"{c.module.name}:{c.name} registers {k}, the key of x690's {base_keys[k]}")
+    rep.check(not takeovers, "C06-R1", "puresnmp (all X690Type subclasses)", "no class of the repository takes over the registry key of an x690 base type (INTEGER, OCTET STRING, ... keep their decoder)", "; ".join(takeovers[:3]), key="registry-takeover|" + "|".join(sorted(t.split(" ")[0] for t in takeovers))[:100])
     # the constructed PDU tags must decode to the right class
     for name, tag in sorted(rfc.PDU_TAGS.items()):
         owners = regs.get(("CONTEXT", tag, "CONSTRUCTED"), [])
@@ -132,7 +147,8 @@ def run(ctx: Ctx, rep: Report) -> None:
     if ok:
         b = bind_call_args(rets[0].value, dataclass_fields(content), skip_self=False)
         want = {"request_id": f"{pd.request_id}.value", "error_status": f"{pd.error_status}.value", "error_index": f"{pd.error_index}.value"}
-        got = {k: norm(v) for k, v in b.items()}
+        fdefs = ctx.defs(fn)
+        got = {k: norm(fdefs.expand(v, stop=[pd.request_id, pd.error_status, pd.error_index])) for k, v in b.items()}
         ok = all(got.get(k) == v for k, v in want.items())
         detail = f"{got}"
         # varbinds: built from the Sequence read, in order
